@@ -91,26 +91,26 @@ class World:
         self.td_cache = {}
         ns = "pm"
         if inc == "single":
-            self._file("a.thrift", ns + ".main")
+            self._file("a.thrift", ns + ".app")
             self.home = "a.thrift"
             self.mid = None
         elif inc == "chain3":
-            self._file("a.thrift", ns + ".main", ["b.thrift"])
+            self._file("a.thrift", ns + ".app", ["b.thrift"])
             self._file("b.thrift", ns + ".mid", ["c.thrift"])
             self._file("c.thrift", ns + ".leaf")
             self.home, self.mid = "c.thrift", "b.thrift"
         elif inc == "diamond":
-            self._file("a.thrift", ns + ".main", ["b.thrift", "c.thrift"])
+            self._file("a.thrift", ns + ".app", ["b.thrift", "c.thrift"])
             self._file("b.thrift", ns + ".left", ["d.thrift"])
             self._file("c.thrift", ns + ".right", ["d.thrift"])
             self._file("d.thrift", ns + ".bottom")
             self.home, self.mid = "d.thrift", "b.thrift"
         elif inc == "samens":
-            self._file("a.thrift", ns + ".main", ["b.thrift"])
-            self._file("b.thrift", ns + ".main")
+            self._file("a.thrift", ns + ".app", ["b.thrift"])
+            self._file("b.thrift", ns + ".app")
             self.home, self.mid = "b.thrift", None
         elif inc == "samebase":
-            self._file("a.thrift", ns + ".main", ["x/common.thrift", "other.thrift"])
+            self._file("a.thrift", ns + ".app", ["x/common.thrift", "other.thrift"])
             self._file("x/common.thrift", ns + ".x.common")
             self._file("other.thrift", ns + ".y.common", ["y/common.thrift"])
             self._file("y/common.thrift", ns + ".w.common")
@@ -296,6 +296,11 @@ def build(vec, shapes):
         return w.through_typedefs(map_type(copy.deepcopy(t), fix))
 
     def val(t, k=0):
+        # thriftgo (pinned tree) crashes (nil ValueType, non-zero exit) on a default value for a field whose type is a
+        # typedef of a container; "mixed" programs leave that combination out so that the rest of them is still compiled,
+        # the "+value" variants keep it (a rejection is logged, it is not a C01 event)
+        if w.tdchain > 0 and t["n"] in ("list", "set", "map") and v["reqdef"] == "mixed":
+            return None
         x = value_for(t, evp, k)
         return x
 
@@ -343,8 +348,8 @@ def build(vec, shapes):
         main["defs"].append({"k": "exception", "name": ns["st"] + "Exc", "fields": efs})
     if has("enum"):
         main["defs"].append({"k": "enum", "name": ns["st"] + "En", "values": [
-            {"name": "ZERO", "value": 0}, {"name": "NEG", "value": -1}, {"name": "BIG", "value": 2147483647},
-            {"name": "NEXT_", "value": None, "ann": annotate(v["ann"], 0)}]})
+            {"name": "ZERO", "value": 0}, {"name": "NEG", "value": -1}, {"name": "SEVEN", "value": 7},
+            {"name": "NEXT_", "value": None, "ann": annotate(v["ann"], 0)}, {"name": "BIG", "value": 2147483647}]})
         main["defs"].append({"k": "enum", "name": ns["st"] + "EnEmpty", "values": []})
     if has("typedef"):
         for k, t in enumerate(shapes[:10]):
